@@ -152,6 +152,89 @@ def _sign_discriminants(facts):
     return {name: int(v) for name, v in adt.get("discriminants", [])}
 
 
+def _serialized_i8_for_variant(b, dv):
+    """follow the one path the body takes when the enum value it was given has discriminant dv (every switch on the way must be
+    on that discriminant), tracking integer constants through moves, references and casts, up to the `serialize` call; returns
+    the i8 handed to it, 'not-i8' or None"""
+    env = {}
+    cur, steps = 0, 0
+
+    def val(op):
+        if op["k"] == "const":
+            if "deref_val" in op:
+                return ("ref", int(op["deref_val"]))
+            if "val" in op:
+                return int(op["val"])
+            return None
+        pl = op["place"]
+        v = env.get(pl["local"])
+        for e in pl["proj"]:
+            if e["k"] == "deref" and isinstance(v, tuple) and v[0] == "ref":
+                v = v[1]
+            elif e["k"] == "deref" and isinstance(v, tuple) and v[0] == "refl":
+                v = env.get(v[1])
+            else:
+                return None
+        return v
+
+    while steps < 200:
+        steps += 1
+        bl = b.blocks[cur]
+        for st in bl["stmts"]:
+            if st["k"] != "assign" or st["place"]["proj"]:
+                continue
+            rv = st["rv"]
+            d = st["place"]["local"]
+            if rv["k"] == "use":
+                env[d] = val(rv["op"])
+            elif rv["k"] == "cast":
+                v = val(rv["op"])
+                env[d] = v if isinstance(v, int) else None
+            elif rv["k"] == "ref" and not rv["place"]["proj"]:
+                env[d] = ("refl", rv["place"]["local"])
+            elif rv["k"] in ("ref", "copyforderef") and [e["k"] for e in rv["place"]["proj"]] == ["deref"]:
+                env[d] = env.get(rv["place"]["local"])  # reborrow
+            elif rv["k"] == "discriminant":
+                env[d] = ("discr", dv)
+            elif rv["k"] == "unop" and rv.get("op") == "Neg" and isinstance(val(rv["a"]), int):
+                env[d] = -val(rv["a"])
+            else:
+                env[d] = None
+        t = bl["term"]
+        if t["k"] == "goto":
+            cur = t["target"]
+        elif t["k"] == "switch":
+            v = val(t["discr"])
+            if not (isinstance(v, tuple) and v[0] == "discr"):
+                return None
+            m = core.switch_edges(b, cur)
+            cur = m.get(dv, m.get(dv & 0xFFFFFFFFFFFFFFFFFFFFFFFFFFFFFFFF, m.get("otherwise")))
+            if cur is None:
+                return None
+        elif t["k"] == "call":
+            if callee_name(t) == "serialize":
+                if "i8" not in (callee(t) or ""):
+                    return "not-i8"
+                v = val(t["args"][0])
+                if isinstance(v, tuple) and v[0] == "ref":
+                    v = v[1]
+                elif isinstance(v, tuple) and v[0] == "refl":
+                    v = env.get(v[1])
+                if isinstance(v, int):
+                    return v - 256 if v > 127 else v
+                return None
+            if t.get("target") is None:
+                return None
+            if not t["dest"]["proj"]:
+                env[t["dest"]["local"]] = None
+            cur = t["target"]
+        elif t["k"] in ("drop", "assert"):
+            cur = t["target"]
+        else:
+            return None
+    return None
+
+
 def check_serde_tables(ctx, res, config="all"):
     facts = ctx.facts(config)
     disc = _sign_discriminants(facts)
@@ -161,29 +244,10 @@ def check_serde_tables(ctx, res, config="all"):
     if len(bs) != 1 or not disc:
         res.fail(Finding("R7-anchor-lost", "Serialize for Sign", "impl not found", file="src/bigint/serde.rs", line=0))
     else:
-        b = bs[0]
+        b = core.inline_private(facts, bs[0])
         got = {}
-        for i, t in b.terms("switch"):
-            m = core.switch_edges(b, i)
-            for name, dv in disc.items():
-                tgt = m.get(dv & 0xFFFFFFFFFFFFFFFFFFFFFFFFFFFFFFFF, None)
-                if tgt is None:
-                    tgt = m.get(dv)
-                if tgt is None:
-                    continue
-                # the arm: first serialize call reachable; its first arg a promoted &i8
-                for x in sorted(b.reachable(tgt)):
-                    tt = b.blocks[x]["term"]
-                    if tt["k"] == "call" and callee_name(tt) == "serialize":
-                        vals = set()
-                        for st in b.blocks[x]["stmts"]:
-                            if st["k"] == "assign" and st["rv"]["k"] == "use" and st["rv"]["op"]["k"] == "const" and "deref_val" in st["rv"]["op"]:
-                                vals.add(int(st["rv"]["op"]["deref_val"]))
-                        if len(vals) == 1:
-                            got[name] = vals.pop()
-                        if "i8" not in (callee(tt) or ""):
-                            got[name] = "not-i8"
-                        break
+        for name, dv in disc.items():
+            got[name] = _serialized_i8_for_variant(b, dv)
         for name in want:
             key = "Sign::%s->i8" % name
             if got.get(name) == want[name]:
@@ -195,25 +259,34 @@ def check_serde_tables(ctx, res, config="all"):
     if len(bs) != 1:
         res.fail(Finding("R7-anchor-lost", "Deserialize for Sign", "impl not found", file="src/bigint/serde.rs", line=0))
     else:
-        b = bs[0]
+        b = core.inline_private(facts, bs[0])
         ok_tab = {}
         rejects = False
+
+        def sign_aggs(blocks):
+            return [s_ for x in blocks for s_ in b.blocks[x]["stmts"] if s_["k"] == "assign" and s_["rv"]["k"] == "aggregate" and s_["rv"].get("adt") == "bigint::Sign"]
+
         for i, t in b.terms("switch"):
-            if t.get("discr_ty") != "i8":
+            if t.get("discr_ty") != "i8" or i not in b.live_blocks():
                 continue
             m = core.switch_edges(b, i)
+            val_targets = [x for k, x in m.items() if k != "otherwise"]
             for v, tgt in m.items():
                 if v == "otherwise":
-                    # must produce Err and never Ok
-                    reg = b.reachable(tgt, without_blocks=[x for k, x in m.items() if k != "otherwise" and x != tgt])
-                    has_err = any(s["k"] == "assign" and s["rv"]["k"] == "aggregate" and s["rv"].get("variant") == "Err" for x in reg for s in b.blocks[x]["stmts"])
-                    has_ok = any(s["k"] == "assign" and s["rv"]["k"] == "aggregate" and s["rv"].get("variant") == "Ok" for x in reg for s in b.blocks[x]["stmts"])
-                    rejects = has_err and not has_ok
+                    # the fall-through arm must not be able to produce a Sign: no Sign value is built on any block that it reaches
+                    # without passing one of the value arms, and none is built before the switch
+                    reg = b.reachable(tgt, without_blocks=[x for x in val_targets if x != tgt])
+                    before = [x for x in b.live_blocks() if b.block_dominates(x, i) and x != i] + [i]
+                    rejects = not sign_aggs(reg) and not sign_aggs(before)
                     continue
                 sv = v - 256 if v > 127 else v
-                for s in b.blocks[tgt]["stmts"]:
-                    if s["k"] == "assign" and s["rv"]["k"] == "aggregate" and s["rv"].get("adt") == "bigint::Sign":
-                        ok_tab[sv] = s["rv"]["variant"]
+                # the first Sign built on the arm (before the arms join again)
+                arm = b.reachable(tgt, without_blocks=[x for x in val_targets if x != tgt] + ([m["otherwise"]] if m.get("otherwise") not in (None, tgt) else []))
+                for x in sorted(arm, key=lambda y: (y != tgt, y)):
+                    ags = sign_aggs([x])
+                    if ags:
+                        ok_tab[sv] = ags[0]["rv"]["variant"]
+                        break
         for name, v in want.items():
             key = "i8 %d->Sign" % v
             if ok_tab.get(v) == name:
